@@ -224,6 +224,8 @@ def sc_bilform(eng):
 
 def replay_elem_pair(fn_expr, acausal_expr):
     def rp(mv, sc, ob):
+        if "replay-required" in ob.name:
+            return REPLAY_CAUSAL_ZERO
         tr, te = C.model_elem(mv, "trial"), C.model_elem(mv, "test")
         return '''
 import numpy as np
@@ -269,7 +271,8 @@ contracts.append(Contract(QUAD + ":QuadScheme2D.integrate", prop="C15"))
 
 contracts.append(Contract(
     SL + ":SingleLayerOperator.bilform", prop="C04", setup=sc_bilform,
-    ensures=[("acausal-literal-zero", "implies(elem_test.time_interval[1] <= elem_trial.time_interval[0], ZERO(result))")],
+    ensures=[("acausal-literal-zero", "implies(elem_test.time_interval[1] <= elem_trial.time_interval[0], ZERO(result))"),
+             ("replay-required: causal entries are computed, never the literal 0", "implies(elem_test.time_interval[1] > elem_trial.time_interval[0], Not(ZERO(result)))")],
     replay=replay_elem_pair("SL.bilform(trial, test)", "test.time_interval[1] <= trial.time_interval[0]")))
 
 
@@ -285,8 +288,51 @@ def sc_point_eval(with_xhat):
     return setup
 
 
+REPLAY_CAUSAL_ZERO = '''
+import numpy as np, io, contextlib
+from scipy.special import exp1
+from src.mesh import MeshParametrized
+from src import parametrization as P
+from src.single_layer import SingleLayerOperator
+FPI = 1 / (4 * np.pi)
+observed = []
+violated = False
+for curve in ("UnitSquare", "LShape", "Circle"):
+    with contextlib.redirect_stdout(io.StringIO()):
+        mesh = MeshParametrized(getattr(P, curve)())
+        mesh.uniform_refine(); mesh.uniform_refine()
+        SL = SingleLayerOperator(mesh)
+    elems = list(mesh.leaf_elements)
+    SL._init_elems(elems)
+    L = mesh.gamma_space.gamma_length
+    for trial in elems[::3]:
+        t0, t1 = trial.time_interval
+        for dt in (1e-4, 1e-3, 1e-2, 0.1, 0.5):
+            t = t0 + dt * (t1 - t0)
+            for x_hat in np.linspace(0, L, 41):
+                x = mesh.gamma_space.eval(np.array([x_hat]))
+                vals = dict(evaluate=SL.evaluate(trial, t, float(x_hat), x))
+                for te in elems[::5]:
+                    if te.time_interval[1] > t0:
+                        vals["bilform"] = SL.bilform(trial, te)
+                        break
+                # lower bound of the exact value: panel length times the time-integrated kernel at the largest distance to the panel
+                ys = trial.gamma_space(np.linspace(*trial.space_interval, 9))
+                dmax2 = float(np.max(np.sum((x - ys) ** 2, axis=0)))
+                lower = trial.h_x * FPI * exp1(dmax2 / (4 * (t - t0))) if t <= t1 else None
+                for name, got in vals.items():
+                    lit_zero = (type(got) is int and got == 0) or float(got) == 0.0
+                    if lit_zero and (name == "bilform" or (lower is not None and lower > 1e-250)):
+                        violated = True
+                        observed.append((curve, name, repr(trial), float(t), float(x_hat), lower))
+observed = observed[:5]
+'''
+
+
 def replay_point(fn_expr):
     def rp(mv, sc, ob):
+        if "replay-required" in ob.name:
+            return REPLAY_CAUSAL_ZERO
         tr = C.model_elem(mv, "trial")
         t = mv.get("t")
         if t is None:
@@ -320,12 +366,14 @@ for x_hat in (0.1, 0.3, 0.25, 0.5, 0.9):
 
 contracts.append(Contract(
     SL + ":SingleLayerOperator.potential", prop="C04", setup=sc_point_eval(False), precondition_asserts=1,
-    ensures=[("acausal-literal-zero", "implies(t <= elem_trial.time_interval[0], ZERO(result))")],
+    ensures=[("acausal-literal-zero", "implies(t <= elem_trial.time_interval[0], ZERO(result))"),
+             ("replay-required: causal values are computed, never the literal 0", "implies(t > elem_trial.time_interval[0], Not(ZERO(result)))")],
     replay=replay_point("SL.potential(trial, t, x + np.array([[0.0], [0.3]]))")))
 
 contracts.append(Contract(
     SL + ":SingleLayerOperator.evaluate", prop="C04", setup=sc_point_eval(True),
-    ensures=[("acausal-literal-zero", "implies(t <= elem_trial.time_interval[0], ZERO(result))")],
+    ensures=[("acausal-literal-zero", "implies(t <= elem_trial.time_interval[0], ZERO(result))"),
+             ("replay-required: causal values are computed, never the literal 0", "implies(t > elem_trial.time_interval[0], Not(ZERO(result)))")],
     replay=replay_point("SL.evaluate(trial, t, x_hat, x)")))
 
 
@@ -339,5 +387,6 @@ def sc_eval_exact(eng):
 contracts.append(Contract(
     SL + ":SingleLayerOperator.evaluate_exact", prop="C04", setup=sc_eval_exact,
     ensures=[("acausal-literal-zero", "implies(t <= elem_trial.time_interval[0], ZERO(result))"),
+             ("replay-required: causal values are computed, never the literal 0", "implies(t > elem_trial.time_interval[0], Not(ZERO(result)))"),
              ("total-case-split", "result is not None")],
     replay=replay_point("SL.evaluate_exact(trial, t, x_hat)")))
